@@ -392,6 +392,8 @@ class Interp:
         if isinstance(f, ExtRef):
             return self.ext_call(f.name, args, kwargs)
         if isinstance(f, Sym):
+            if getattr(self, "_uninterp", None) is not None:
+                self._uninterp.append(("call", [self.w.to_val(a) for a in [f] + list(args)]))
             return self.w.uf("call", [f] + list(args), "val")
         raise OutsideSubset(f"call of {type(f).__name__}")
 
@@ -407,6 +409,10 @@ class Interp:
         allargs = list(args) + [v for _, v in sorted(kwargs.items())]
         tag = name + ("" if not kwargs else "[" + ",".join(sorted(kwargs)) + "]")
         r = self.w.uf(tag, allargs, "val")
+        if getattr(self, "_uninterp", None) is not None:
+            self._uninterp.append((tag, [self.w.to_val(a) for a in allargs]))
+        if name == "open":
+            self.p.events.append(("effect", "open", [self.w.to_val(a) for a in allargs]))
         if name in _LEN_PRESERVING and args and isinstance(args[0], Sym) and args[0].meta.get("len") is not None:
             r.meta["len"] = args[0].meta["len"]
         elif name in ("xp.ones", "xp.zeros", "xp.empty", "np.ones", "np.zeros") and args:
@@ -645,7 +651,7 @@ class Interp:
             return list(it)
         return None
 
-    def read_values(self, node, env):
+    def read_values(self, node, env, skip_names=()):
         """Values of everything read inside node (for summarising an uninterpreted block): every maximal
         attribute chain rooted at a name (`self.kpts.k`, `atoms.G`, `n`) is evaluated; a chain that ends in a bound
         method contributes all fields of its object (conservative)."""
@@ -658,10 +664,12 @@ class Interp:
                 while isinstance(root, ast.Attribute):
                     root = root.value
                 if isinstance(root, ast.Name):
-                    chains[ast.unparse(n)] = n
+                    if root.id not in skip_names:
+                        chains[ast.unparse(n)] = n
                     return
             if isinstance(n, ast.Name) and isinstance(n.ctx, ast.Load):
-                chains[n.id] = n
+                if n.id not in skip_names:
+                    chains[n.id] = n
                 return
             for c in ast.iter_child_nodes(n):
                 visit(c)
@@ -967,7 +975,20 @@ class Interp:
         if t is ast.Expr:
             if isinstance(s.value, ast.Constant):
                 return
-            self.eval(s.value, env)
+            if isinstance(s.value, ast.Call):
+                # a call whose result is discarded is made for its effect: if the callee is not interpreted, the call and its
+                # arguments are recorded as an observable event of the path
+                saved = getattr(self, "_uninterp", None)
+                self._uninterp = []
+                try:
+                    self.eval(s.value, env)
+                    if self._uninterp:
+                        tag, argv = self._uninterp[-1]
+                        self.p.events.append(("effect", tag, argv))
+                finally:
+                    self._uninterp = saved
+            else:
+                self.eval(s.value, env)
         elif t is ast.Assign:
             v = self.eval(s.value, env)
             for tg in s.targets:
@@ -1077,6 +1098,8 @@ class Interp:
 
     def exec_for(self, s, env):
         it = self.eval(s.iter, env)
+        if hasattr(it, "z_order_probe"):
+            return it.z_order_probe(self, s, env)
         seq = self.concrete_iter(it)
         if seq is None:
             spec = self.loop_specs.get(("for", ast.unparse(s.iter), ast.unparse(s.target)))
@@ -1188,7 +1211,13 @@ class Interp:
     def summarise_loop(self, s, env, extra):
         """Loop with a symbolic trip count and no invariant: every variable / field / array written in the body
         becomes an uninterpreted function of everything the loop reads (deterministic, otherwise unknown)."""
-        reads = self.read_values(s, env) + list(extra)
+        # the loop's own target is assigned before the body can read it: its previous value is an input of the loop only
+        # for the target itself (zero iterations leave it unchanged)
+        own = set()
+        if isinstance(s, ast.For):
+            own = {n.id for n in ast.walk(s.target) if isinstance(n, ast.Name)}
+        reads = self.read_values(s, env, skip_names=own) + list(extra)
+        own_old = [env[n] for n in sorted(own) if n in env]
         h = _srchash(s)
         targets = []
         for n in ast.walk(s):
@@ -1214,7 +1243,7 @@ class Interp:
             if key in done:
                 continue
             done.add(key)
-            newv = self.w.uf(f"loop:{h}:{key}", reads, "val")
+            newv = self.w.uf(f"loop:{h}:{key}", reads + (own_old if key in own else []), "val")
             if isinstance(root, ast.Name):
                 env[root.id] = newv
             elif isinstance(root, ast.Attribute):
@@ -1237,6 +1266,11 @@ class Interp:
                     else:
                         self.set_attr(base, root.attr, newv)
         self.p.events.append(("loop-summarised", ast.unparse(s).splitlines()[0]))
+        for n in ast.walk(s):
+            if isinstance(n, ast.Expr) and isinstance(n.value, ast.Call) and not ast.unparse(n.value.func).startswith(NOOP_EXT_PREFIXES):
+                # the summarised body performs effects: one event carrying everything the loop reads
+                self.p.events.append(("effect", f"loop:{h}", [self.w.to_val(v) for v in reads]))
+                break
 
 
 def copy_load(node):
